@@ -1,7 +1,12 @@
 (* Js/PrintGen.v — the printer's tables as they are in the current source (coq/gen/JsTables_gen.v). *)
 From MVGen Require Import JsTables_gen.
-From MV Require Import Js.PrintModel.
+From MV Require Import Js.PrintModel Js.PrintSpec.
 Definition T_gen : tables :=
   {| t_unary := js_unaryPrecMap; t_left := js_binaryLeftPrecMap; t_right := js_binaryRightPrecMap;
-     t_unop := js_unaryOpPrecMap; t_binop := js_binaryOpPrecMap |}.
+     t_unop := js_unaryOpPrecMap; t_binop := js_binaryOpPrecMap; t_const := js_constGuards |}.
 Definition print_gen (prec : nat) (e : expr) : list tok := print T_gen prec e.
+(* the guards of the constant replacements are exactly the printer's own levels of the replacement trees *)
+Example consts_exact_gen : consts_exact T_gen = true.
+Proof. vm_compute. reflexivity. Qed.
+Example consts_ok_gen : consts_ok T_gen = true.
+Proof. vm_compute. reflexivity. Qed.
